@@ -116,6 +116,10 @@ CLI_TIE_PROFILES = [
     {"ties": True, "n_fasta": 1, "inputs": ["mq", "perc"], "n_ev": 1, "n_methods": 3},
     {"ties": True, "n_fasta": 1, "inputs": ["mq"], "n_ev": 1, "n_methods": 2, "spaces": True},
     {"ties": True, "n_fasta": 2, "inputs": ["perc"], "n_ev": 1, "n_methods": 3, "twice": True, "spaces": True},
+    # several connected components of groups WITHOUT a peptide of their own whose members are tied (triangles): the
+    # graph code of the rescue step decides the member order / leading protein of the merged groups
+    {"triangles": True, "n_fasta": 1, "inputs": ["perc"], "n_ev": 1, "remap": True, "default_method": True},
+    {"triangles": True, "n_fasta": 2, "inputs": ["mq"], "n_ev": 1, "remap": True},
 ]
 
 
@@ -860,7 +864,9 @@ class P(Prop):
             if pf.get("spaces", rng.random() < 0.3) and accepts_spaces():
                 chosen = [rng.choice([" %s", "%s ", " %s ", "%s"]) % m for m in chosen]
         # --- database
-        db = gen_cli.gen_tied_database(rng) if ties else gen_cli.gen_database(rng, n_prot=rng.choice([None, None, 6, 8]))
+        tri = bool(pf.get("triangles"))
+        db = (gen_cli.gen_triangle_database(rng) if tri else gen_cli.gen_tied_database(rng) if ties
+              else gen_cli.gen_database(rng, n_prot=rng.choice([None, None, 6, 8])))
         if pf.get("dups", rng.random() < (0.2 if ties else 0.5)):
             db = gen_cli.add_duplicates(rng, db)
         files, argv = {}, []
@@ -882,7 +888,7 @@ class P(Prop):
                 names.append("../db%d.fasta" % i)
             argv += ["--fasta"] + names
         # --- evidence
-        psms = gen_cli.gen_tied_psms(rng, db, n_exp=rng.randint(1, 2)) if ties else gen_cli.gen_psms(rng, db, n_exp=rng.randint(1, 3))
+        psms = gen_cli.gen_tied_psms(rng, db, n_exp=rng.randint(1, 2)) if (ties or tri) else gen_cli.gen_psms(rng, db, n_exp=rng.randint(1, 3))
         for kind in kinds:
             names = []
             for i, rows in enumerate(gen_cli.split_psms(rng, psms, n_ev)):
